@@ -116,7 +116,8 @@ class World:
         ts = str(now - age)
         return ".".join(["v1", kid, ts, nonce, b64(spec_mac(secret or self.secret[kidc], kid, ts, nonce, ORIGIN))])
 
-    def build(self, case: dict, vi: int, wire: bool, now: int, skew: int, nonce: str, seed: int) -> tuple[str, str]:
+    def build(self, case: dict, vi: int, wire: bool, now: int, skew: int, nonce: str, seed: int,
+              margin: int = 0) -> tuple[str, str]:
         """abstract case -> (header value, claimed kid string).  Deterministic in (case, vi, wire, seed)."""
         import random
         rng = random.Random(f"{seed}|{vi}|{int(wire)}|{sorted(case.items())}")
@@ -130,6 +131,8 @@ class World:
         kidc = case["kid"]
         kid = KID[kidc] if kidc != "unk" else (UNKNOWN_KIDS[0] if vi == 0 else rng.choice(UNKNOWN_KIDS))
         age = AGE[case["age"]](skew)
+        if margin:                                   # wall-clock leg: stay a minute away from the window edge
+            age = {"zero": 0, "gtP": skew + margin, "gtN": -(skew + margin)}[case["age"]]
         ts_int = now - age
         if vi % 3 == 2 and case["age"] == "gtP":
             ts_int = rng.choice([x for x in (0, 1, now - 10 ** 7, now - skew - 2) if x >= 0])
@@ -279,10 +282,10 @@ def run(ctx: Ctx) -> None:
     quick = ctx.quick
     full = {"Ages": Raw('{"gtP","eqP","ltP","zero","ltN","eqN","gtN"}'),
             "MacKinds": Raw('{"ok","key","origin","tamper","frame","noncanon"}'),
-            "NonceKinds": Raw('{"fresh","seen_in","seen_edge","seen_out","seen_rej"}'), "Dev_GateEmptyIsAbsent": False}
+            "NonceKinds": Raw('{"fresh","seen_in","seen_edge","seen_out","seen_rej","seen_xkid"}'), "Dev_GateEmptyIsAbsent": False}
     if quick:
         consts = {**full, "ShKids": Raw('{"k1","unk"}'), "ShAges": Raw('{"zero","gtP","gtN"}'),
-                  "ShMacs": Raw('{"ok","key"}'), "ShNonces": Raw('{"fresh","seen_in"}')}
+                  "ShMacs": Raw('{"ok","key"}'), "ShNonces": Raw('{"fresh","seen_in","seen_xkid"}')}
     else:
         consts = {**full, "ShKids": Raw('{"k1","k2","unk"}'), "ShAges": full["Ages"], "ShMacs": full["MacKinds"],
                   "ShNonces": full["NonceKinds"]}        # the complete product: 239,402 cases
@@ -334,9 +337,26 @@ def run(ctx: Ctx) -> None:
         return (r.status_code, bytes(r.content), tuple(sorted((k.lower(), v) for k, v in r.headers.items()
                                                              if k.lower() not in ("x-request-id", "date"))))
 
+    from vgi_rpc.http import bearer_authenticate
+    from vgi_rpc.rpc import AuthContext
+
+    def _bearer(token: str) -> AuthContext:
+        if token != "good-bearer-token":
+            raise ValueError("unknown bearer token")
+        return AuthContext(domain="bearer", authenticated=True, principal="alice", claims={})
+
+    clients2, ref401_2 = {}, {}
     for s in SKEWS:
         cfg = ProxyProofConfig(mode="require", origin_id=ORIGIN, secrets=w.secrets, skew_seconds=s)
-        gates[s] = proxy_proof_gate(cfg, now=lambda: wall["now"])
+        gates[(s, "require")] = proxy_proof_gate(cfg, now=lambda: wall["now"])
+        gates[(s, "allow")] = proxy_proof_gate(ProxyProofConfig(mode="allow", origin_id=ORIGIN, secrets=w.secrets,
+                                                                skew_seconds=s), now=lambda: wall["now"])
+        if s == 30:
+            gates[(s, "wall")] = proxy_proof_gate(cfg)                  # default clock: now=None
+        g2 = proxy_proof_gate(cfg, now=lambda: wall["now"])
+        clients2[s] = make_sync_client(server, authenticate=require_all(g2, bearer_authenticate(validate=_bearer)),
+                                       proxy_proof_required=True, token_key=b"k" * 32)
+        ref401_2[s] = _norm401(clients2[s].post("/u", content=body, headers=hdrs0))
         hgate = proxy_proof_gate(cfg, now=lambda: wall["now"])
         clients[s] = make_sync_client(server, authenticate=require_all(hgate), proxy_proof_required=True,
                                       token_key=b"k" * 32)
@@ -346,12 +366,26 @@ def run(ctx: Ctx) -> None:
             ctx.violation("H_Reject401", {"leg": "http", "hdr": "absent", "got": str(r.status_code)}, {})
     req = ft.create_req()
 
-    def call_gate(s: int, token: str | None) -> str:
+    def call_http2(s: int, token: str | None, inner: str) -> dict:
+        h = dict(hdrs0)
+        if token is not None:
+            h["VGI-Proxy-Proof"] = token
+        if inner != "absent":
+            h["Authorization"] = "Bearer good-bearer-token" if inner == "ok" else "Bearer evil-bearer-token"
+        try:
+            r = clients2[s].post("/u", content=body, headers=h)
+        except BaseException:  # noqa: BLE001
+            return {"done": True, "inner": inner, "status": 599, "same": False}
+        return {"done": True, "inner": inner, "status": r.status_code, "same": _norm401(r) == ref401_2[s]}
+
+    def call_gate(s: int, token: str | None, mode: str = "require") -> str:
         req.env.pop("HTTP_VGI_PROXY_PROOF", None)
         if token is not None:
             req.env["HTTP_VGI_PROXY_PROOF"] = token
         try:
-            r = gates[s](req)
+            r = gates[(s, mode)](req)
+            if mode == "allow" and r.get("verified") == "false":
+                return r.get("reason") if r.get("reason") in REASONS else f"other:reason:{r.get('reason')}"[:60]
             return "ok" if r.get("verified") == "true" else f"other:return:{dict(r)!r}"[:60]
         except ProofError as e:
             return e.reason if e.reason in REASONS else f"other:reason:{e.reason}"[:60]
@@ -374,102 +408,121 @@ def run(ctx: Ctx) -> None:
         return {"done": True, "out": out, "status": r.status_code, "same": n == ref401[s], "echo": bool(echo)}
 
     NOH = {"done": False, "out": "na", "status": 0, "same": True, "echo": False}
+    NOH2 = {"done": False, "inner": "absent", "status": 0, "same": True}
+    BASE = {"v": "na", "g": "na", "a": "na", "w": "na", "h": NOH, "h2": NOH2}
     records: list[dict] = []
     clean_case = {"hdr": "present", "multi": False, "long": False, "nf": "5", "ver": True, "kidcs": True, "tscs": True,
                   "noncs": True, "maccs": True, "kid": "k1", "age": "zero", "mac": "ok", "nonce": "fresh"}
     mint_checked = 0
 
-    def pre_history(kind: str, kidc: str, s: int, now0: int, nonce: str, leg: str, cache, clk) -> int:
-        """Establish the nonce history; every pre-call is itself an observation of its own (clean / rejected) case.
-        Returns the number of seconds both clocks advance before the main call."""
+    def pre_history(kind: str, kidc: str, s: int, now0: int, nonce: str, leg: str, runner, clock_ctl: bool) -> int:
+        """Establish the nonce history through the same entry point as the main call; every pre-call is itself an
+        observation of its own (clean / rejected) case.  runner(token) -> the observation fields of that entry point.
+        Returns the number of seconds both clocks advance before the main call (only where the harness owns them)."""
         pk = kidc if kidc in ("k1", "k2") else "k1"
-        if kind in ("seen_in", "seen_edge", "seen_out") and not (leg != "v" and kind != "seen_in"):
-            tok = w.clean_token(pk, now0, nonce)
-            pc = {**clean_case, "kid": pk}
-            if leg == "v":
-                o = {"v": _run_verify(verify_proof, ProofError, tok, secrets=w.secrets, origin_id=ORIGIN, skew_seconds=s,
-                                      nonce_cache=cache, now=now0), "g": "na", "h": NOH}
-            elif leg == "g":
-                wall["now"] = now0
-                o = {"v": "na", "g": call_gate(s, tok), "h": NOH}
-            else:
-                wall["now"] = now0
-                o = {"v": "na", "g": "na", "h": call_http(s, tok, KID[pk])}
-            records.append({"case": pc, "obs": o, "_tok": tok, "_leg": leg + ":pre", "_now": now0, "_skew": s})
-            ctx.case([leg, "pre", tok, now0, s])
-            return {"seen_in": s - 1, "seen_edge": s, "seen_out": s + 1}[kind] if leg == "v" else 0
-        if kind == "seen_rej":
-            tok = w.clean_token(pk, now0, nonce, secret=w.k3)          # same nonce, MAC by an unconfigured key
-            pc = {**clean_case, "kid": pk, "mac": "key"}
-            if leg == "v":
-                o = {"v": _run_verify(verify_proof, ProofError, tok, secrets=w.secrets, origin_id=ORIGIN, skew_seconds=s,
-                                      nonce_cache=cache, now=now0), "g": "na", "h": NOH}
-            elif leg == "g":
-                wall["now"] = now0
-                o = {"v": "na", "g": call_gate(s, tok), "h": NOH}
-            else:
-                wall["now"] = now0
-                o = {"v": "na", "g": "na", "h": call_http(s, tok, KID[pk])}
-            records.append({"case": pc, "obs": o, "_tok": tok, "_leg": leg + ":pre", "_now": now0, "_skew": s})
-            ctx.case([leg, "pre-rej", tok, now0, s])
-        return 0
+        if kind in ("seen_in", "seen_edge", "seen_out"):
+            if not clock_ctl and kind != "seen_in":
+                return 0                               # needs an advanced cache clock: left with an empty history
+            tok, pc = w.clean_token(pk, now0, nonce), {**clean_case, "kid": pk}
+            adv = {"seen_in": s - 1, "seen_edge": s, "seen_out": s + 1}[kind] if clock_ctl else 0
+        elif kind == "seen_xkid":
+            ok = "k2" if pk == "k1" else "k1"          # accepted under the other configured kid
+            tok, pc, adv = w.clean_token(ok, now0, nonce), {**clean_case, "kid": ok}, 0
+        elif kind == "seen_rej":
+            tok, pc, adv = w.clean_token(pk, now0, nonce, secret=w.k3), {**clean_case, "kid": pk, "mac": "key"}, 0
+        else:
+            return 0
+        records.append({"case": pc, "obs": {**BASE, **runner(tok)}, "_tok": tok, "_leg": leg + ":pre", "_now": now0, "_skew": s})
+        ctx.case([leg, "pre", kind, tok, now0, s])
+        return adv
 
-    n_http = 0
+    n_http = n_http2 = n_wall = 0
     http_stride = 23 if quick else 11
+    import time as _time
     for ci, cj in enumerate(cases):
         case, exp = cj["case"], cj["exp"]
         structural_clean = exp["step"] == 0 or exp["step"] >= 5
+        present = case["hdr"] == "present"
         nvar = (4 if quick else 24) if structural_clean else (1 if quick else (2 if ci % 4 == 0 else 1))
         for vi in range(nvar):
             s = SKEWS[(vi + ci) % len(SKEWS)] if vi else 30
             now0 = 1_700_000_000 if vi == 0 else ctx.rng.choice([1_700_000_000, 1_893_456_000, 100_000, 4_102_444_800])
-            do_http = (structural_clean and vi < (2 if quick else 6)) or (vi == 0 and ci % http_stride == 0) \
-                or case["hdr"] != "present"
-            # ----------------------------------------------------------- verify_proof leg
-            obs = {"v": "na", "g": "na", "h": NOH}
-            tok_v = None
+            do_http = (structural_clean and vi < (2 if quick else 6)) or (vi == 0 and ci % http_stride == 0) or not present
+            obs = dict(BASE)
+            toks: dict = {}
+            # ----------------------------------------------------------- verify_proof leg (harness owns both clocks)
             if case["hdr"] != "absent":
                 nonce = w.nonce()
                 clk = [5000.0 + vi]
                 cache = NonceCache(ttl_seconds=s, capacity=64, clock=lambda: clk[0])
-                adv = pre_history(case["nonce"], case["kid"], s, now0, nonce, "v", cache, clk)
+                adv = pre_history(case["nonce"], case["kid"], s, now0, nonce, "v",
+                                  lambda t: {"v": _run_verify(verify_proof, ProofError, t, secrets=w.secrets, origin_id=ORIGIN,
+                                                              skew_seconds=s, nonce_cache=cache, now=now0)}, True)
                 clk[0] += adv
                 now = now0 + adv
-                tok_v, kid_s = w.build(case, vi, False, now, s, nonce, seed)
-                obs["v"] = _run_verify(verify_proof, ProofError, tok_v, secrets=w.secrets, origin_id=ORIGIN,
+                toks["verify"], kid_s = w.build(case, vi, False, now, s, nonce, seed)
+                obs["v"] = _run_verify(verify_proof, ProofError, toks["verify"], secrets=w.secrets, origin_id=ORIGIN,
                                        skew_seconds=s, nonce_cache=cache, now=now)
-                ctx.case(["v", tok_v, now, s, case["nonce"]])
+                ctx.case(["v", toks["verify"], now, s, case["nonce"]])
                 if structural_clean and case["mac"] == "ok" and vi == 1 and case["kid"] != "unk" and mint_checked < 50:
                     # the real minting side produces the same bytes as the harness's section-4 implementation
                     mint_checked += 1
                     mine = w.clean_token(case["kid"], now, nonce)
                     theirs = mint_proof(w.secret[case["kid"]], KID[case["kid"]], ORIGIN, now=now, nonce=nonce)
                     ctx.extra["mint_proof_equals_harness_section4"] = ctx.extra.get("mint_proof_equals_harness_section4", True) and (mine == theirs)
-            # ----------------------------------------------------------- require-mode gate leg (real falcon.Request)
-            nonce = w.nonce()
-            pre_history(case["nonce"], case["kid"], s, now0, nonce, "g", None, None) if case["hdr"] == "present" else 0
-            if case["hdr"] == "absent":
-                tok_g, kid_s = None, ""
-            else:
-                tok_g, kid_s = w.build(case, vi, True, now0, s, nonce, seed)
-            wall["now"] = now0
-            obs["g"] = call_gate(s, tok_g)
-            ctx.case(["g", tok_g, now0, s, case["nonce"]])
-            # ----------------------------------------------------------- full HTTP leg (401 uniformity)
-            tok_h = None
+            # ----------------------------------------------------------- gate legs on a real falcon.Request: require, allow
+            for leg, mode in (("g", "require"), ("a", "allow")):
+                nonce = w.nonce()
+                wall["now"] = now0
+                if present:
+                    pre_history(case["nonce"], case["kid"], s, now0, nonce, leg,
+                                lambda t, leg=leg, mode=mode: {leg: call_gate(s, t, mode)}, False)
+                toks[leg], kid_s = (None, "") if case["hdr"] == "absent" else w.build(case, vi, True, now0, s, nonce, seed)
+                obs[leg] = call_gate(s, toks[leg], mode)
+                ctx.case([leg, toks[leg], now0, s, case["nonce"]])
+            # ----------------------------------------------------------- default clocks (now=None): wall clock, monotonic cache
+            if present and case["age"] in ("zero", "gtP", "gtN") and s >= 30 and (structural_clean or ci % http_stride == 1):
+                nonce = w.nonce()
+                wcache = NonceCache(ttl_seconds=s, capacity=64)
+                use_gate = (ci + vi) % 2 == 0
+
+                def run_wall(t):
+                    if use_gate:
+                        return {"w": call_gate(s, t, "wall")}
+                    return {"w": _run_verify(verify_proof, ProofError, t, secrets=w.secrets, origin_id=ORIGIN, skew_seconds=s,
+                                             nonce_cache=wcache)}
+                if s == 30 or not use_gate:              # the wall-clock gate exists for the default skew only
+                    pre_history(case["nonce"], case["kid"], s, int(_time.time()), nonce, "w", run_wall, False)
+                    toks["wall"], _ = w.build(case, vi, True, int(_time.time()), s, nonce, seed, margin=60)
+                    obs["w"] = run_wall(toks["wall"])["w"]
+                    n_wall += 1
+                    ctx.case(["w", use_gate, toks["wall"], s, case["nonce"]])
+            # ----------------------------------------------------------- full HTTP legs (401 uniformity)
             if do_http:
                 nonce = w.nonce()
-                pre_history(case["nonce"], case["kid"], s, now0, nonce, "h", None, None) if case["hdr"] == "present" else 0
-                if case["hdr"] != "absent":
-                    tok_h, kid_s = w.build(case, vi, True, now0, s, nonce, seed)
                 wall["now"] = now0
-                obs["h"] = call_http(s, tok_h, kid_s)
+                if present:
+                    pre_history(case["nonce"], case["kid"], s, now0, nonce, "h",
+                                lambda t: {"h": call_http(s, t, KID["k1"])}, False)
+                toks["http"], kid_s = (None, "") if case["hdr"] == "absent" else w.build(case, vi, True, now0, s, nonce, seed)
+                obs["h"] = call_http(s, toks["http"], kid_s)
                 n_http += 1
-                ctx.case(["h", tok_h, now0, s, case["nonce"]])
-            records.append({"case": case, "obs": obs, "_tok": {"verify": tok_v, "gate": tok_g, "http": tok_h},
-                            "_leg": "main", "_now": now0, "_skew": s, "_adm": exp["adm"]})
+                ctx.case(["h", toks["http"], now0, s, case["nonce"]])
+                # the deployment shape: a bearer authenticator behind the gate
+                inner = ("ok", "bad", "absent")[(ci + vi) % 3]
+                nonce = w.nonce()
+                if present:
+                    pre_history(case["nonce"], case["kid"], s, now0, nonce, "h2",
+                                lambda t: {"h2": call_http2(s, t, "ok")}, False)
+                toks["http2"], _ = (None, "") if case["hdr"] == "absent" else w.build(case, vi, True, now0, s, nonce, seed)
+                obs["h2"] = call_http2(s, toks["http2"], inner)
+                n_http2 += 1
+                ctx.case(["h2", inner, toks["http2"], now0, s, case["nonce"]])
+            records.append({"case": case, "obs": obs, "_tok": toks, "_leg": "main", "_now": now0, "_skew": s, "_adm": exp["adm"]})
     plog.removeHandler(cap)
     ctx.extra["http_401_leg_executions"] = n_http
+    ctx.extra["http_401_with_inner_authenticator_executions"] = n_http2
+    ctx.extra["wall_clock_leg_executions"] = n_wall
     ctx.extra["expected_outcome_histogram"] = {}
     for cj in cases:
         k = "|".join(sorted(cj["exp"]["adm"]))
@@ -492,11 +545,12 @@ def run(ctx: Ctx) -> None:
         r = records[idx]
         c, o = r["case"], r["obs"]
         for cl in clauses:
-            leg = {"V": "verify", "G": "gate", "H": "http"}[cl[0]]
-            got = {"verify": o["v"], "gate": o["g"], "http": f"{o['h']['out']}/{o['h']['status']}"}[leg]
+            leg = "http2" if cl.startswith("H2_") else {"V": "verify", "G": "gate", "A": "allow", "W": "wall", "H": "http"}[cl[0]]
+            got = {"verify": o["v"], "gate": o["g"], "allow": o["a"], "wall": o["w"], "http": f"{o['h']['out']}/{o['h']['status']}",
+                   "http2": f"{o['h2']['inner']}:{o['h2']['status']}"}[leg]
             faults = [k for k in ("multi", "long") if c[k]] + [k for k in ("ver", "kidcs", "tscs", "noncs", "maccs") if not c[k]] \
                 + ([f"nf{c['nf']}"] if c["nf"] != "5" else [])
-            tok = r["_tok"] if isinstance(r["_tok"], str) else r["_tok"].get(leg)
+            tok = r["_tok"] if isinstance(r["_tok"], str) else r["_tok"].get({"gate": "g", "allow": "a"}.get(leg, leg))
             ctx.violation(cl, {"leg": leg, "hdr": c["hdr"], "structural_faults": "+".join(faults) or "none",
                                "kid": c["kid"], "age": c["age"], "mac": c["mac"], "nonce": c["nonce"], "got": got.split("/")[0]},
                           {"case": c, "observed": o, "token": tok, "now": r["_now"], "skew": r["_skew"],
